@@ -209,8 +209,17 @@ def hZhTime : Handler
     showExcept showRes (do zhPackTime drvUni cfg g (← zhHandle drvUni cfg (parseBool chinese) g) (parseDT ref))
   | _ => "bad-op"
 
+/-- m2dzh ref year fullYear(unused) month day chsYear -> res (ChineseDateParser.match_to_date) -/
+def hM2DZh : Handler
+  | [ref, y, fy, m, d, cy] =>
+    match dateCfgOf "zh" with
+    | some cfg => showExcept showRes (matchToDateZh drvUni cfg (parseDateGroups y fy m d) (parseInt cy) (parseDT ref))
+    | none => "bad-op"
+  | _ => "bad-op"
+
 def dispatchDtRes (op : String) (args : List String) : Option String :=
   match op with
+  | "dt.m2dzh" => some (hM2DZh args)
   | "dt.zhtime" => some (hZhTime args)
   | "dt.dtfmt" => some (hDtFmt args)
   | "dt.gendates" => some (hGenDates args)
